@@ -70,6 +70,14 @@ _COLLS: list[frozenset] = []
 _COLL_IDS: dict[frozenset, int] = {}
 
 
+# collections that are the items a *generator* helper yields (cid of the interned collection).  A ``for`` loop / a
+# comprehension over such a collection is "the loop that produces these items": its body is run once per yield site, with
+# the yielded term bound to the target and the yield's own conditions added (instead of the generic element ("it", coll)),
+# so `for a, b in _helper(x): ...` and the helper's loop written inline give the same terms.  The mark is not part of the
+# term: to every pattern rule such a collection is a collection built by a helper's loop.
+_GEN_COLLS: set[int] = set()
+
+
 def intern_coll(items: frozenset) -> Term:
     cid = _COLL_IDS.get(items)
     if cid is None:
@@ -77,6 +85,31 @@ def intern_coll(items: frozenset) -> Term:
         _COLLS.append(items)
         _COLL_IDS[items] = cid
     return ("coll", cid)
+
+
+# the statement that stores an item (conds, item), as a number that grows in the order the executor first reaches the
+# storing statements of a function (program order along every path of one loop body): two items stored for the same
+# element by different statements are ordered by it.  Kept beside the terms (carried through deref / subst) - to the
+# rules a collection stays a set of (conditions, item).  Items without a number are never ordered.
+_ITEM_SEQ: dict[tuple, int] = {}
+_SITE_SEQ: dict[int, int] = {}
+_SEQ_COUNTER = itertools.count(1)
+
+
+def _seq_note(pair: tuple, like: tuple | None = None, site: ast.AST | None = None) -> tuple:
+    if pair not in _ITEM_SEQ:
+        n = _ITEM_SEQ.get(like) if like is not None else None
+        if site is not None:
+            n = _SITE_SEQ.get(id(site))
+            if n is None:
+                n = _SITE_SEQ[id(site)] = next(_SEQ_COUNTER)
+        if n is not None:
+            _ITEM_SEQ[pair] = n
+    return pair
+
+
+def is_gen_coll(t_: t.Any) -> bool:
+    return isinstance(t_, tuple) and len(t_) == 2 and t_[0] == "coll" and t_[1] in _GEN_COLLS
 
 
 def coll_items(t_: Term) -> frozenset | None:
@@ -199,7 +232,10 @@ def subst(t_: t.Any, m: dict[str, Term]) -> t.Any:
         if t_ and t_[0] == "bin" and t_[1] == "+" and is_c(t_[3]) and isinstance(cv(t_[3]), int):
             return add_int(subst(t_[2], m), cv(t_[3]))
         if len(t_) == 2 and t_[0] == "coll":
-            return intern_coll(subst(_COLLS[t_[1]], m))
+            r = intern_coll(frozenset(_seq_note(subst(x, m), x) for x in _COLLS[t_[1]]))
+            if t_[1] in _GEN_COLLS:
+                _GEN_COLLS.add(r[1])
+            return r
         return tuple(subst(x, m) for x in t_)
     if isinstance(t_, frozenset):
         return frozenset(subst(x, m) for x in t_)
@@ -270,12 +306,29 @@ def show_conds(conds: t.Iterable[Cond]) -> str:
 _SWAP = {">": "<", ">=": "<="}
 
 
+def is_bool_call(t_: t.Any) -> bool:
+    return isinstance(t_, tuple) and len(t_) == 4 and t_[0] == "call" and t_[1] == ("g", "builtins.bool") and len(t_[2]) == 1 and not t_[3]
+
+
+def boolean_shaped(t_: t.Any) -> bool:
+    """the term's value is True or False (not merely truthy / falsy)"""
+    if not isinstance(t_, tuple) or not t_:
+        return False
+    if t_[0] in ("cmp", "not"):
+        return True
+    if t_[0] in ("and", "or"):
+        return all(boolean_shaped(x) for x in t_[1])
+    return is_bool_call(t_) or (is_c(t_) and isinstance(cv(t_), bool))
+
+
 def atomize(t_: Term) -> tuple[Term, bool]:
     """(atom, polarity): the term is true iff atom's truth == polarity."""
     if isinstance(t_, tuple) and t_:
         if t_[0] == "not":
             a, p = atomize(t_[1])
             return a, not p
+        if is_bool_call(t_):
+            return atomize(t_[2][0])  # bool(x) is true exactly when x is
         if t_[0] == "cmp":
             op, a, b = t_[1], t_[2], t_[3]
             if op == "!=":
@@ -370,8 +423,8 @@ class State:
     def local_conds(self) -> tuple[Cond, ...]:
         return self.conds[self.loop_base :] if self.loop_base is not None else ()
 
-    def heap_add(self, oid: int, item: Term) -> "State":
-        return self.heap_set(oid, self.heap.get(oid, frozenset()) | {(self.local_conds(), item)})
+    def heap_add(self, oid: int, item: Term, site: ast.AST | None = None) -> "State":
+        return self.heap_set(oid, self.heap.get(oid, frozenset()) | {_seq_note((self.local_conds(), item), None, site)})
 
 
 class Outcome(t.NamedTuple):
@@ -382,11 +435,12 @@ class Outcome(t.NamedTuple):
 
 
 class Summary:
-    def __init__(self, fi: FuncInfo, params: list[str], defaults: dict[str, Term], outcomes: list[Outcome]):
+    def __init__(self, fi: FuncInfo, params: list[str], defaults: dict[str, Term], outcomes: list[Outcome], lost: list[str] | None = None):
         self.fi = fi
         self.params = params
         self.defaults = defaults
         self.outcomes = outcomes
+        self.lost = lost or []  # stores into containers the executor could not identify (the summary misses these items)
         self._deep: list[Term] | None = None
 
     @property
@@ -403,6 +457,7 @@ class Summary:
 MAX_STATES = 6000
 MAX_TERM = 1500
 
+_MUTATORS = {"append", "add", "insert", "extend", "update", "setdefault", "appendleft"}
 _STR_BUILTINS = {"builtins.str"}
 _LISTY_BUILTINS = {"builtins.list", "builtins.tuple", "builtins.sorted", "builtins.iter", "builtins.set", "builtins.frozenset"}
 
@@ -410,9 +465,14 @@ _LISTY_BUILTINS = {"builtins.list", "builtins.tuple", "builtins.sorted", "builti
 class Summaries:
     """cache of function summaries for one repo."""
 
-    def __init__(self, repo: Repo, folder: Folder | None = None):
+    def __init__(self, repo: Repo, folder: Folder | None = None, fuse_generators: bool = True):
         self.repo = repo
         self.folder = folder or Folder(repo)
+        # the two sound readings of `for x in _generator_helper(..)`: fused (the helper's loop is this loop: one start
+        # per yield site, as if the helper's body were written inline) or materialised (the helper is a function that
+        # returns the list of what it yields, the loop runs over its generic element)
+        self.fuse_generators = fuse_generators
+        self.generators_read: set[str] = set()  # generator helpers that were summarised
         self._memo: dict[str, Summary] = {}
         self._busy: list[str] = []
         self._oid = itertools.count(1)
@@ -474,6 +534,11 @@ class _Exec:
         self.handlers: list[list[str]] = []  # handler types of the try bodies being executed (innermost last)
         self._seen_out: set[tuple] = set()
         self.n_states = 0
+        self.lost: list[str] = []
+        self.is_gen = False
+        self.gen_oid = 0
+        self.gen_ends: dict[tuple, list] = {}  # function-level path condition -> [items yielded, node]
+        self.gen_refs: dict[int, frozenset] = {}  # list(<generator>) objects -> their items when created
         decs = fi.decorators
         self.is_static = any(d.endswith("staticmethod") for d in decs)
         self.self_name = self.params[0] if (fi.cls is not None and self.params and not self.is_static) else None
@@ -485,13 +550,29 @@ class _Exec:
             env[self.vararg] = ("p", self.vararg)
         if self.kwarg:
             env[self.kwarg] = ("p", self.kwarg)
+        heap: dict[int, frozenset] = {}
         for n in walk_no_nested_ast(self.fn):
-            if isinstance(n, (ast.Yield, ast.YieldFrom, ast.Await)):
-                raise AnalysisError(f"{self.fi.fq}: generator / coroutine bodies are not modelled")
-        ends = self.block(self.fn.body, [State(env)])  # type: ignore[attr-defined]
+            if isinstance(n, ast.Await) or isinstance(self.fn, ast.AsyncFunctionDef):
+                raise AnalysisError(f"{self.fi.fq}: coroutine bodies are not modelled")
+            if isinstance(n, (ast.Yield, ast.YieldFrom)):
+                if not isinstance(getattr(n, "_parent", None), ast.Expr):
+                    raise AnalysisError(f"{self.fi.fq}: a generator that uses the value of `yield` (send protocol) is not modelled")
+                self.is_gen = True
+        if self.is_gen:
+            # a generator is read as the helper that builds the collection of what it yields: `yield x` adds x (under
+            # the conditions of its loop iteration, like an append would), every way of finishing returns the collection
+            self.gen_oid = next(self.sums._oid)
+            heap[self.gen_oid] = frozenset()
+        ends = self.block(self.fn.body, [State(env, (), heap)])  # type: ignore[attr-defined]
         for st in ends:
             if st.flow is None:
                 self.record("return", st, NONE, None)
+        if self.is_gen:
+            self.sums.generators_read.add(self.fi.fq)
+            for conds, (items, node) in self.gen_ends.items():
+                c = intern_coll(frozenset(items))
+                _GEN_COLLS.add(c[1])
+                self.outcomes.append(Outcome("return", conds, c, node))
         a = self.fn.args  # type: ignore[attr-defined]
         defaults: dict[str, Term] = {}
         pos = a.posonlyargs + a.args
@@ -500,7 +581,7 @@ class _Exec:
         for arg, d in zip(a.kwonlyargs, a.kw_defaults):
             if d is not None:
                 defaults[arg.arg] = self.const_default(d)
-        return Summary(self.fi, self.params, defaults, self.outcomes)
+        return Summary(self.fi, self.params, defaults, self.outcomes, self.lost)
 
     def const_default(self, d: ast.AST) -> Term:
         r = self.ev(d, State({}))
@@ -510,6 +591,14 @@ class _Exec:
         if kind == "raise" and any(_exc_matches(h, _exc_name(term)) for hs in self.handlers for h in hs):
             return  # caught by an enclosing handler, whose body is explored from the state at the `try`
         memo: dict = {}
+        if kind == "return" and self.is_gen:
+            # the generator ends here: what it produced is everything yielded so far.  A `return` inside the producing
+            # loop is "stop producing" (like a break): only the conditions from before the loop describe the call.
+            fconds = st.conds[: st.loop_base] if st.loop_base is not None else st.conds
+            coll = self.deref(("ref", self.gen_oid), st.heap, (), memo)
+            key = tuple((self.deref(a, st.heap, (), memo), tr) for a, tr in fconds)
+            self.gen_ends.setdefault(key, [set(), node])[0].update(coll_items(coll) or ())
+            return
         term = self.deref(term, st.heap, (), memo)
         conds = tuple((self.deref(a, st.heap, (), memo), tr) for a, tr in st.conds)
         key = (kind, conds, term)
@@ -535,7 +624,7 @@ class _Exec:
                 else:
                     items = heap.get(oid, frozenset())
                     s2 = seen + (oid,)
-                    r = intern_coll(frozenset((tuple((self.deref(a, heap, s2, memo), tr) for a, tr in cs), self.deref(i, heap, s2, memo)) for cs, i in items))
+                    r = intern_coll(frozenset(_seq_note((tuple((self.deref(a, heap, s2, memo), tr) for a, tr in cs), self.deref(i, heap, s2, memo)), (cs, i)) for cs, i in items))
             else:
                 r = tuple(self.deref(x, heap, seen, memo) for x in t_)
             memo[k] = (t_, r)
@@ -660,13 +749,13 @@ class _Exec:
             return st
         return st  # attribute store etc.: not tracked
 
-    def extend(self, st: State, ref: Term, v: Term) -> State:
+    def extend(self, st: State, ref: Term, v: Term, site: ast.AST | None = None) -> State:
         """ref.extend(v) / ref += v"""
         items = self.items_of(v, st)
         if items is not None:
             lc = st.local_conds()
-            return st.heap_set(ref[1], st.heap.get(ref[1], frozenset()) | frozenset((lc + cs, i) for cs, i in items))
-        return st.heap_add(ref[1], ("it", v))
+            return st.heap_set(ref[1], st.heap.get(ref[1], frozenset()) | frozenset(_seq_note((lc + cs, i), None, site) for cs, i in items))
+        return st.heap_add(ref[1], ("it", v), site)
 
     def loop(self, st: State, body: list[ast.stmt], orelse: list[ast.stmt], for_node: ast.For | None = None, test: ast.AST | None = None) -> list[State]:
         pre_conds = st.conds
@@ -682,13 +771,49 @@ class _Exec:
                 s0 = State(cur.env, pre_conds, cur.heap, None, base)
                 exits: list[State] = []
                 if for_node is not None:
-                    starts = [self.assign(for_node.target, ("it", itv), s0)]
+                    starts = [self.assign(for_node.target, el, s1) for s1, el in self.elements(itv, s0)]  # type: ignore[arg-type]
                 else:
                     starts, exits = self.branch(test, s0)  # type: ignore[arg-type]
                 ends = self.block(body, starts)
                 cur = self.merge([cur] + ends + exits, pre_conds, outer)
             out.extend(self.block(orelse, [cur]) if orelse else [cur])
         return out
+
+    def elements(self, itv: Term, st: State) -> list[tuple[State, Term]]:
+        """the element(s) a loop over `itv` binds: the generic element - or, for the items of a generator helper, one
+        start per yield site (the yielded term under the yield's own conditions: the helper's loop *is* this loop)."""
+        items = None
+        if not self.sums.fuse_generators:
+            pass
+        elif is_gen_coll(itv):
+            items = coll_items(itv)
+        elif itv[0] == "ref" and itv[1] in self.gen_refs and st.heap.get(itv[1]) == self.gen_refs[itv[1]]:
+            items = self.gen_refs[itv[1]]
+        if items is None:
+            return [(st, ("it", itv))]
+        out: list[tuple[State, Term]] = []
+        for cs, item in sorted(items, key=repr):
+            s = st
+            for a, tr in cs:
+                d = self.decide(a, s)
+                if d is None:
+                    s = s.cond(a, tr)
+                elif d != tr:
+                    break
+            else:
+                out.append((s, item))
+        self.tick(len(out))
+        return out
+
+    def fork(self, v: Term, st: State) -> tuple[list[State], list[State]]:
+        """states in which the term is true / false"""
+        d = self.decide(v, st)
+        if d is True:
+            return [st], []
+        if d is False:
+            return [], [st]
+        self.tick(2)
+        return [st.cond(v, True)], [st.cond(v, False)]
 
     def merge(self, states: list[State], conds: tuple[Cond, ...], loop_base: int | None) -> State:
         names: dict[str, list[Term]] = {}
@@ -961,6 +1086,18 @@ class _Exec:
     def ev_NamedExpr(self, e: ast.NamedExpr, st: State):  # noqa: N802
         return [(s.set(e.target.id, v), v) for s, v in self.ev(e.value, st)]
 
+    def ev_Yield(self, e: ast.Yield, st: State):  # noqa: N802
+        if not self.is_gen:
+            return [(st, ("v", norm(e)))]
+        if e.value is None:
+            return [(st.heap_add(self.gen_oid, NONE, e), NONE)]
+        return [(s.heap_add(self.gen_oid, v, e), NONE) for s, v in self.ev(e.value, st)]
+
+    def ev_YieldFrom(self, e: ast.YieldFrom, st: State):  # noqa: N802
+        if not self.is_gen:
+            return [(st, ("v", norm(e)))]
+        return [(self.extend(s, ("ref", self.gen_oid), v, e), NONE) for s, v in self.ev(e.value, st)]
+
     def ev_Tuple(self, e: ast.Tuple, st: State):  # noqa: N802
         if any(isinstance(x, ast.Starred) for x in e.elts):
             return [(st, ("v", norm(e)))]
@@ -1006,15 +1143,16 @@ class _Exec:
             nxt = []
             for s in cur:
                 for s2, itv in self.ev(g.iter, s):
-                    s3 = self.assign(g.target, ("it", itv), s2)
-                    ss = [s3]
-                    for cnd in g.ifs:
-                        ss2: list[State] = []
-                        for q in ss:
-                            ts, _ = self.branch(cnd, q)
-                            ss2 += ts
-                        ss = ss2
-                    nxt += ss
+                    for s2b, el in self.elements(itv, s2):
+                        s3 = self.assign(g.target, el, s2b)
+                        ss = [s3]
+                        for cnd in g.ifs:
+                            ss2: list[State] = []
+                            for q in ss:
+                                ts, _ = self.branch(cnd, q)
+                                ss2 += ts
+                            ss = ss2
+                        nxt += ss
             cur = nxt
         items: set[tuple] = set()
         heap = dict(st.heap)
@@ -1065,8 +1203,42 @@ class _Exec:
                 elif base[0] == "tuple" and is_c(ix) and isinstance(cv(ix), int) and -len(base[1]) <= cv(ix) < len(base[1]):
                     out.append((s2, base[1][cv(ix)]))
                 else:
-                    out.append((s2, ("idx", base, ix)))
+                    sel = self.table_lookup(base, ix, s2)
+                    out.extend(sel if sel is not None else [(s2, ("idx", base, ix))])
         return out
+
+    def table_lookup(self, base: Term, ix: Term, st: State) -> list[tuple[State, Term]] | None:
+        """`table[key]` for a dict literal with constant keys (each written once) or a pair, selected by a constant or
+        by a truth value: `{False: a, True: b}[bool(f)]` / `(a, b)[bool(f)]` is `b if f else a`."""
+        entries: dict[t.Any, Term] | None = None
+        if base[0] == "ref":
+            entries = {}
+            for cs, it_ in st.heap.get(base[1], frozenset()):
+                if cs or it_[0] != "kv" or not is_c(it_[1]):
+                    return None
+                k = (type(cv(it_[1])).__name__, cv(it_[1]))
+                try:
+                    if k in entries:
+                        return None
+                except TypeError:
+                    return None
+                entries[k] = it_[2]
+        elif base[0] == "tuple" and len(base[1]) == 2:
+            entries = {("bool", False): base[1][0], ("bool", True): base[1][1]}
+            if is_c(ix):
+                return None
+        if not entries:
+            return None
+        if is_c(ix):
+            k = (type(cv(ix)).__name__, cv(ix))
+            try:
+                return [(st, entries[k])] if k in entries else None
+            except TypeError:
+                return None
+        if set(entries) == {("bool", False), ("bool", True)} and boolean_shaped(ix):
+            ts, fs = self.fork(ix, st)
+            return [(s, entries[("bool", True)]) for s in ts] + [(s, entries[("bool", False)]) for s in fs]
+        return None
 
     # -- calls ------------------------------------------------------------
     def inline_target(self, f: ast.AST, st: State) -> tuple[FuncInfo, Term | None] | None:
@@ -1153,9 +1325,23 @@ class _Exec:
                 return self._new_ref(st, [])
             if len(args) == 1 and self.items_of(args[0], st) is not None:
                 oid = next(self.sums._oid)
+                if is_gen_coll(args[0]) or (args[0][0] == "ref" and args[0][1] in self.gen_refs and st.heap.get(args[0][1]) == self.gen_refs[args[0][1]]):
+                    self.gen_refs[oid] = self.items_of(args[0], st)  # type: ignore[assignment]
                 return st.heap_set(oid, self.items_of(args[0], st)), ("ref", oid)  # type: ignore[arg-type]
         if fq == "builtins.dict" and not args and not kwargs:
             return self._new_ref(st, [])
+        if fq == "builtins.dict" and len(args) == 1 and not kwargs and self.items_of(args[0], st) is not None:
+            # dict(<pairs>): every (key, value) item becomes an entry (a mapping is copied entry by entry)
+            entries = set()
+            for cs, it_ in self.items_of(args[0], st):  # type: ignore[union-attr]
+                if it_[0] == "kv":
+                    entries.add((cs, it_))
+                elif it_[0] == "tuple" and len(it_[1]) == 2:
+                    entries.add((cs, ("kv", it_[1][0], it_[1][1])))
+                else:
+                    entries.add((cs, ("kv", ("idx", it_, C(0)), ("idx", it_, C(1)))))
+            oid = next(self.sums._oid)
+            return st.heap_set(oid, frozenset(entries)), ("ref", oid)
         if fq in ("typing.cast", "t.cast") and len(args) == 2:
             return st, args[1]
         return st, ("call", fv, tuple(args), kwargs)
@@ -1165,16 +1351,18 @@ class _Exec:
             return st, ("join", recv, args[0])
         if recv[0] == "ref":
             if name in ("append", "add") and len(args) == 1:
-                return st.heap_add(recv[1], args[0]), NONE
+                return st.heap_add(recv[1], args[0], e if name == "append" else None), NONE
             if name == "insert" and len(args) == 2:
                 return st.heap_add(recv[1], args[1]), NONE
             if name in ("extend", "update") and len(args) == 1:
-                return self.extend(st, recv, args[0]), NONE
+                return self.extend(st, recv, args[0], e if name == "extend" else None), NONE
             if name == "setdefault" and len(args) == 2:
                 return st.heap_add(recv[1], ("kv", args[0], args[1])), ("meth", name, recv, tuple(args), kwargs)
             if name == "copy" and not args:
                 oid = next(self.sums._oid)
                 return st.heap_set(oid, st.heap.get(recv[1], frozenset())), ("ref", oid)
+        if name in _MUTATORS and recv[0] != "ref" and not is_c(recv) and recv[0] not in ("p", "attr", "g", "call", "meth"):
+            self.lost.append(f"{show(recv)[:60]}.{name}(..)")  # a local container the executor lost track of
         if name == "format" and is_cstr(recv):
             r = _format_parts(cv(recv), args, kwargs)
             if r is not None:
@@ -1183,6 +1371,7 @@ class _Exec:
 
     def inline(self, fi: FuncInfo, selfv: Term | None, args: list[Term], kwargs: dict[str, Term], st: State, e: ast.Call) -> list[tuple[State, Term]]:
         summ = self.sums.of(fi)
+        self.lost.extend(x for x in summ.lost if x not in self.lost)
         params = list(summ.params)
         m: dict[str, Term] = {}
         pos = list(args)
@@ -1481,10 +1670,17 @@ class Conc:
                 hit = []
                 for cs, it_ in items:
                     if all(bool(self.val(a, env2)) == tr for a, tr in cs):
-                        hit.append(self.val(it_, env2))
+                        hit.append((_ITEM_SEQ.get((cs, it_)), self.val(it_, env2)))
                 if len(hit) > 1:
-                    raise Unknown("several items stored per element")
-                out.extend(hit)
+                    # several stores for one element (`yield a; yield b` in one iteration): one item per storing
+                    # statement (its variants from the two passes over the loop body must agree), in statement order
+                    by_site: dict[int, t.Any] = {}
+                    for n, v in hit:
+                        if n is None or (n in by_site and (by_site[n] != v or type(by_site[n]) is not type(v))):
+                            raise Unknown("several items stored per element")
+                        by_site[n] = v
+                    hit = sorted(by_site.items())
+                out.extend(v for _, v in hit)
         finally:
             self._memo = saved
         return out
@@ -1812,6 +2008,98 @@ class Closure:
         self.frame = frame
 
 
+class _GenClose(BaseException):
+    """unwinds the body of a generator that is abandoned (its `finally` blocks run, as on generator.close())."""
+
+
+class GenVal:
+    """generator object of the evaluated program: the body of the generator function, suspended at its `yield`s.
+
+    The body is evaluated by the same Machine on a thread of its own that runs only while the consumer waits in
+    ``__next__`` (strict hand-over, never concurrently), so the interleaving of producer and consumer - laziness, early
+    abandonment, an exception raised after some items were delivered - is the interleaving of the Python semantics.
+    Being a plain Python iterator it can be consumed by `for`, comprehensions and the builtins (list, next, join ...)."""
+
+    def __init__(self, machine: "Machine", body: t.Callable[[], None], what: str):
+        self.machine = machine
+        self.body = body
+        self.what = what
+        self.state = "new"  # new | suspended | running | done | closed
+        self.retval: t.Any = None
+        self._msg: tuple = ()
+        self._go = __import__("threading").Semaphore(0)
+        self._back = __import__("threading").Semaphore(0)
+        self._closing = False
+        self._frame_tag = ("<gen>", id(self))
+
+    def __iter__(self) -> "GenVal":
+        return self
+
+    def _main(self) -> None:
+        self._go.acquire()
+        try:
+            if self._closing:
+                raise _GenClose()
+            self.body()
+            self._msg = ("return", None)
+        except _Ret as r:
+            self._msg = ("return", r.v)
+        except _GenClose:
+            self._msg = ("closed",)
+        except BaseException as ex:  # noqa: BLE001 - handed to the consumer, which re-raises it
+            self._msg = ("raise", ex)
+        self._back.release()
+
+    def suspend(self, v: t.Any) -> None:
+        """called on the generator's thread by `yield v`"""
+        self._msg = ("yield", v)
+        self._back.release()
+        self._go.acquire()
+        if self._closing:
+            raise _GenClose()
+
+    def __next__(self) -> t.Any:
+        if self.state == "closed":
+            raise NotModelled(f"generator {self.what} is used after the evaluation that created it ended")
+        if self.state == "done":
+            raise StopIteration
+        if self.state == "running":
+            raise ProgramRaise(ExcVal(ValueError, ("generator already executing",)))
+        m = self.machine
+        if self.state == "new":
+            import threading
+
+            th = threading.Thread(target=self._main, daemon=True)
+            m._gens.append(self)
+            th.start()
+        self.state = "running"
+        prev = m._cur_gen
+        m._cur_gen = self
+        self._go.release()
+        self._back.acquire()
+        m._cur_gen = prev
+        msg = self._msg
+        if msg[0] == "yield":
+            self.state = "suspended"
+            return msg[1]
+        self.state = "done"
+        if msg[0] == "return":
+            self.retval = msg[1]
+            raise StopIteration
+        if msg[0] == "raise":
+            raise msg[1]
+        raise StopIteration
+
+    def close(self) -> None:
+        if self.state == "suspended":
+            self._closing = True
+            self.state = "running"
+            self._go.release()
+            self._back.acquire()
+        if self.state != "done":
+            self.state = "closed"
+
+
 class Frame:
     __slots__ = ("env", "module", "limports", "parent", "fi", "is_comp", "outer_names")
 
@@ -1906,7 +2194,9 @@ class Machine:
         self._rx: dict[tuple, t.Any] = {}
         self._limports: dict[int, dict[str, str]] = {}
         self._const: dict[str, t.Any] = {}
-        self._plain: dict[int, bool] = {}  # function node -> not a generator / coroutine, no foreign decorator
+        self._plain: dict[int, bool] = {}  # function node -> False: plain function, True: generator function (no coroutine, no foreign decorator)
+        self._gens: list[GenVal] = []  # generator objects started during the current evaluation
+        self._cur_gen: GenVal | None = None  # the generator whose body is being evaluated
         self._loads: dict[int, ast.AST] = {}
         self._dispatch: dict[type, t.Any] = {}
         self._class_attrs: dict[tuple[str, str], t.Any] = {}
@@ -1920,12 +2210,27 @@ class Machine:
             f = Fn(f, None)
         elif not isinstance(f, _MACHINE_OBJECTS):
             f = Cls(f)
-        return self.call(f, list(args), dict(kwargs or {}))
+        try:
+            return self.call(f, list(args), dict(kwargs or {}))
+        finally:
+            self.close_generators()
 
     def method(self, obj: t.Any, name: str, args: t.Sequence[t.Any] = (), kwargs: dict[str, t.Any] | None = None) -> t.Any:
         self.steps = 0
         self.depth = 0
-        return self.call(self.getattr(obj, name), list(args), dict(kwargs or {}))
+        try:
+            return self.call(self.getattr(obj, name), list(args), dict(kwargs or {}))
+        finally:
+            self.close_generators()
+
+    def close_generators(self) -> None:
+        """the evaluation is over: unwind every generator body that is still suspended (its thread ends)."""
+        gens, self._gens = self._gens, []
+        for g in reversed(gens):
+            try:
+                g.close()
+            except BaseException:  # noqa: BLE001 - nothing of the finished evaluation may leak into the next one
+                pass
 
     def outcome(self, thunk: t.Callable[[], t.Any]) -> t.Any:
         """snapshot of the value, or a marker for `raises` / `does not finish`."""
@@ -2311,14 +2616,16 @@ class Machine:
     def call_fn(self, fi: FuncInfo, args: list[t.Any], kwargs: dict[str, t.Any]) -> t.Any:
         node = fi.node
         if id(node) not in self._plain:
-            if isinstance(node, ast.AsyncFunctionDef) or any(isinstance(n, (ast.Yield, ast.YieldFrom, ast.Await)) for n in walk_no_nested_ast(node)):
-                raise NotModelled(f"{fi.fq} is a generator / coroutine")
+            if isinstance(node, ast.AsyncFunctionDef) or any(isinstance(n, ast.Await) for n in walk_no_nested_ast(node)):
+                raise NotModelled(f"{fi.fq} is a coroutine")
             other = [d for d in fi.decorators if not d.endswith(("staticmethod", "classmethod", "property", "cached_property", ".setter"))]
             if other:
                 raise NotModelled(f"{fi.fq} is decorated with {other[0]}")
-            self._plain[id(node)] = True
+            self._plain[id(node)] = any(isinstance(n, (ast.Yield, ast.YieldFrom)) for n in walk_no_nested_ast(node))
         fr = Frame(fi.module, self.limports_of(fi), None, fi)
         self.bind(node, args, kwargs, fr, Frame(fi.module, {}), fi.name)
+        if self._plain[id(node)]:
+            return self.make_generator(node, fr, fi.fq)
         self.enter()
         try:
             self.block(node.body, fr)  # type: ignore[attr-defined]
@@ -2331,11 +2638,13 @@ class Machine:
     def call_closure(self, c: Closure, args: list[t.Any], kwargs: dict[str, t.Any]) -> t.Any:
         node = c.node
         if id(node) not in self._plain:
-            if not isinstance(node, ast.Lambda) and any(isinstance(n, (ast.Yield, ast.YieldFrom, ast.Await)) for n in walk_no_nested_ast(node)):
-                raise NotModelled("nested generator")
-            self._plain[id(node)] = True
+            if isinstance(node, ast.AsyncFunctionDef) or any(isinstance(n, ast.Await) for n in walk_no_nested_ast(node)):
+                raise NotModelled("nested coroutine")
+            self._plain[id(node)] = not isinstance(node, ast.Lambda) and any(isinstance(n, (ast.Yield, ast.YieldFrom)) for n in walk_no_nested_ast(node))
         fr = Frame(c.frame.module, c.frame.limports, c.frame, c.frame.fi)
         self.bind(node, args, kwargs, fr, c.frame, getattr(node, "name", "<lambda>"))
+        if self._plain[id(node)]:
+            return self.make_generator(node, fr, getattr(node, "name", "<nested>"))
         self.enter()
         try:
             if isinstance(node, ast.Lambda):
@@ -2347,6 +2656,37 @@ class Machine:
             self.depth -= 1
         return None
 
+    def make_generator(self, node: t.Any, fr: Frame, what: str) -> GenVal:
+        """calling a generator function evaluates nothing of its body: the body runs as the object is iterated."""
+        fr.env["<gen>"] = None
+
+        def body() -> None:
+            self.block(node.body, fr)
+
+        g = GenVal(self, body, what)
+        fr.env["<gen>"] = g
+        return g
+
+    def x_Yield(self, e: ast.Yield, fr: Frame) -> t.Any:  # noqa: N802
+        f = fr.find("<gen>")
+        g = f.env["<gen>"] if f is not None else None
+        if not isinstance(g, GenVal) or g is not self._cur_gen:
+            raise NotModelled("yield outside the generator body being evaluated")
+        g.suspend(self.ev(e.value, fr) if e.value is not None else None)
+        return None  # plain iteration sends None
+
+    def x_YieldFrom(self, e: ast.YieldFrom, fr: Frame) -> t.Any:  # noqa: N802
+        f = fr.find("<gen>")
+        g = f.env["<gen>"] if f is not None else None
+        if not isinstance(g, GenVal) or g is not self._cur_gen:
+            raise NotModelled("yield from outside the generator body being evaluated")
+        src = self.ev(e.value, fr)
+        it = self.iterate(src)
+        for v in it:
+            self.tick()
+            g.suspend(v)
+        return src.retval if isinstance(src, GenVal) else None
+
     # -- conversions ------------------------------------------------------
     def truth(self, v: t.Any) -> bool:
         if isinstance(v, Obj):
@@ -2357,7 +2697,7 @@ class Machine:
                 if what == "builtin":
                     raise NotModelled(f"truth of a {v.ci.fq}")
             return True
-        if isinstance(v, (Fn, Cls, ModRef, Ext, Native, Closure, ExcVal, RegexConst)):
+        if isinstance(v, (Fn, Cls, ModRef, Ext, Native, Closure, ExcVal, RegexConst, GenVal)):
             return True
         return bool(v)
 
@@ -2370,7 +2710,7 @@ class Machine:
             raise NotModelled(f"str() of a {v.ci.fq}")
         if isinstance(v, ExcVal):
             return str(v.args[0]) if len(v.args) == 1 else str(v.args) if v.args else ""
-        if isinstance(v, _MACHINE_OBJECTS) or isinstance(v, RegexConst) or _has_machine_object(v):
+        if isinstance(v, _MACHINE_OBJECTS) or isinstance(v, (RegexConst, GenVal)) or _has_machine_object(v):
             raise NotModelled(f"str() of a {type(v).__name__}")
         return self.native(str, v)
 
@@ -2380,7 +2720,7 @@ class Machine:
             if isinstance(what, FuncInfo):
                 return self.call_fn(what, [v], {})
             raise NotModelled(f"repr() of a {v.ci.fq}")
-        if isinstance(v, _MACHINE_OBJECTS) or isinstance(v, RegexConst) or _has_machine_object(v):
+        if isinstance(v, _MACHINE_OBJECTS) or isinstance(v, (RegexConst, GenVal)) or _has_machine_object(v):
             raise NotModelled(f"repr() of a {type(v).__name__}")
         return repr(v)
 
@@ -2392,6 +2732,8 @@ class Machine:
             raise NotModelled(f"iteration over a {v.ci.fq}")
         if isinstance(v, _MACHINE_OBJECTS) or isinstance(v, RegexConst):
             raise NotModelled(f"iteration over a {type(v).__name__}")
+        if isinstance(v, GenVal):
+            return v
         if isinstance(v, (dict, set)):
             return list(v)  # the body may change the container: Python would raise; a snapshot is enough here
         return self.native(iter, v)
@@ -2829,7 +3171,7 @@ _MISSING_EXC = object()
 
 
 def _has_machine_object(v: t.Any, depth: int = 0) -> bool:
-    if isinstance(v, _MACHINE_OBJECTS):
+    if isinstance(v, _MACHINE_OBJECTS) or isinstance(v, GenVal):
         return True
     if depth > 6:
         return False
@@ -2850,6 +3192,8 @@ def snapshot(v: t.Any, depth: int = 0) -> t.Any:
         return ("<exception>", v.kind)
     if isinstance(v, (Fn, Cls, ModRef, Ext, Native, Closure, SuperRef)):
         return ("<object>", type(v).__name__)
+    if isinstance(v, GenVal):
+        raise NotModelled(f"a generator object ({v.what}) is part of the compared value")
     if isinstance(v, list):
         return [snapshot(x, depth + 1) for x in v]
     if isinstance(v, tuple):
